@@ -29,3 +29,5 @@ def run(ctx, rep):
     more5.rule_principal_walk(mod, rep)
     from ..rules import more6
     more6.rule_alloc_range(mod, rep, floor=40, sel=lambda f: f.name in ("sp_colorder", "get_perm_c", "sp_coletree", "sp_symetree", "getata", "at_plus_a", "get_colamd", "get_metis", "qrnzcnt", "cholnzcnt", "TreePostorder", "heap_relax_snode", "pxgstrf_relax_snode") or (f.file or "").endswith(("colamd.c", "mmd.c", "sp_coletree.c", "sp_colorder.c", "get_perm_c.c")))
+    more6.rule_etree_scan(mod, rep)
+    more6.rule_order_step(mod, rep)
